@@ -1188,6 +1188,42 @@ pub fn c16_service_level() -> (u64, Vec<Violation>) {
 }
 
 /* ------------------------------------------------------------------------------------ */
+/* C15, service level: the configured session timeout / capacity reach the handler        */
+/* ------------------------------------------------------------------------------------ */
+
+/// A real `Discv5` built through the public constructor with every combination of session timeout
+/// {1 s, 100 s, 1 day}, session cache capacity {1, 1000}, ping interval {10 s, 300 s} and request
+/// timeout {1 s, 4 s}: the handler it starts is configured with exactly these values.
+pub fn c15_service_level() -> (u64, Vec<Violation>) {
+    let mut problems = vec![];
+    let mut cases = 0u64;
+    for st in [1u64, 100, 86_400] {
+        for cap in [1usize, 1000] {
+            for ping in [10u64, 300] {
+                for rt_s in [1u64, 4] {
+                    cases += 1;
+                    let got = rt::run(async move {
+                        let listen = ListenConfig::Ipv4 { ip: Ipv4Addr::new(10, 0, 0, 62), port: 9000 };
+                        let _node = SNode::start(SNodeSpec { keyno: 62, listen, enr: None }, |b| {
+                            b.session_timeout(std::time::Duration::from_secs(st));
+                            b.session_cache_capacity(cap);
+                            b.ping_interval(std::time::Duration::from_secs(ping));
+                            b.request_timeout(std::time::Duration::from_secs(rt_s));
+                        }, false).await;
+                        v::scripted_handler_config()
+                    });
+                    match got {
+                        Some((t, c, r, _)) if t == std::time::Duration::from_secs(st) && c == cap && r == std::time::Duration::from_secs(rt_s) => {}
+                        other => problems.push(Violation { clause: "a session unused for longer than the configured session timeout is never used again; the cache never holds more sessions than configured".into(), key: "service:session-config".into(), detail: format!("Discv5 configured with session_timeout {st} s, session_cache_capacity {cap}, ping_interval {ping} s, request_timeout {rt_s} s started its handler with (session timeout, capacity, request timeout, retries) = {:?}", other), replay: json!({"engine":"ssim","check":"C15","session_timeout_s":st,"capacity":cap,"ping_interval_s":ping}) }),
+                    }
+                }
+            }
+        }
+    }
+    (cases, problems)
+}
+
+/* ------------------------------------------------------------------------------------ */
 /* C07, service level: the configured incoming limit reaches the routing table            */
 /* ------------------------------------------------------------------------------------ */
 
